@@ -8,6 +8,8 @@ package main
 // each scripted backend, requests currently held at each backend).
 
 import (
+	"errors"
+	"bytes"
 	"context"
 	"fmt"
 	"net/http"
@@ -67,7 +69,7 @@ func runLBAcct(x *X) {
 
 	// (statuses Helios also produces itself -- 429, 503, 401 -- when they come from the backend are
 	// proxied answers: counted once, in the class of their status)
-	classes := []string{"ok", "s404", "s500", "unreach", "abort", "client-gone", "s204", "s429", "s503", "s401", "client-gone-early"}
+	classes := []string{"ok", "s404", "s500", "unreach", "abort", "client-gone", "s204", "s429", "s503", "s401", "client-gone-early", "client-gone-mid-body"}
 	var steps []string
 	clientGone := func(spec reqSpec) {
 		// the client disconnects while the backend is still working: the request
@@ -96,8 +98,33 @@ func runLBAcct(x *X) {
 		h.net.ev("ret", id, "", rec.status, "client-gone")
 		cancel()
 	}
+	// the client disconnects while the response body is being relayed: its connection is gone
+	// (writes fail) and net/http cancels the request's context
+	clientGoneMidBody := func(spec reqSpec) {
+		r, id := h.newRequest(spec)
+		ctx, cancel := context.WithCancel(r.Context())
+		defer cancel()
+		r = r.WithContext(ctx)
+		rec := &goneRecorder{recorder: newRecorder(), gone: cancel}
+		x.mu.Lock()
+		h.reached++
+		x.mu.Unlock()
+		h.net.ev("inv", id, "", 0, "client-gone-mid-body")
+		func() {
+			defer func() {
+				if p := recover(); p != nil && p != http.ErrAbortHandler {
+					x.Violate("C03", "C03/handler-panic", "request %d panicked: %v", id, p)
+				}
+			}()
+			h.handler.ServeHTTP(rec, r)
+		}()
+		simrt.Yield("woke")
+		h.net.ev("ret", id, "", rec.status, "client-gone-mid-body")
+	}
 	runClass := func(class string, client string) {
 		switch class {
+		case "client-gone-mid-body":
+			clientGoneMidBody(reqSpec{client: client, plan: &reqPlan{body: bytes.Repeat([]byte("streamed "), 2000)}})
 		case "client-gone":
 			clientGone(reqSpec{client: client, plan: &reqPlan{delay: 2 * time.Second}})
 		case "client-gone-early":
@@ -116,7 +143,7 @@ func runLBAcct(x *X) {
 			x.Fault("backend-unreachable")
 		case "abort":
 			x.Fault("backend-abort-mid-body")
-		case "client-gone", "client-gone-early":
+		case "client-gone", "client-gone-early", "client-gone-mid-body":
 			x.Fault("client-disconnect")
 		}
 	}
@@ -285,6 +312,20 @@ func runLBAcct(x *X) {
 	if left := s.Teardown(); left > 0 {
 		x.Probe("teardown-left")
 	}
+}
+
+// goneRecorder: a client connection that breaks at the first body write.
+type goneRecorder struct {
+	*recorder
+	gone func()
+}
+
+func (g *goneRecorder) Write(p []byte) (int, error) {
+	if !g.wrote {
+		g.WriteHeader(200)
+	}
+	g.gone()
+	return 0, errors.New("write tcp: broken pipe")
 }
 
 // classCause names which unaccounted path a run exercised, so that distinct
